@@ -8,8 +8,10 @@ package harness
 // value owner is often one of the scope's own parties (optional ones included).  After every
 // operation it dumps, per scope: existence, parties (with optional marks) and the roll-up flag
 // (metadata store), the value owner per GetScopeValueOwner, and the
-// bank's holders and supply of the scope denom; plus the authz grants and marker permissions
-// in force.  The Lean driver compares the dumps with the model and runs the property's step
+// bank's holders and supply of the scope denom; plus the authz grants (with the uses a count
+// authorization has left), the marker permissions in force and each marker's lifecycle status
+// (proposed / finalized / active / cancelled / destroyed: a marker account can hold scope
+// tokens in every one of them).  The Lean driver compares the dumps with the model and runs the property's step
 // checker on consecutive implementation dumps.
 
 import (
@@ -47,6 +49,10 @@ var (
 	vownerAll     = []string{"A", "B", "C", "D", "E", "K", "MR", "MU", "MOD", "FEE"}
 	vownerIDs     = []string{"s1", "s2", "s3", "s4"}
 	vownerMTs     = []string{"write", "delete", "updvo", "migrate"}
+	vownerStatus  = map[string]markertypes.MarkerStatus{
+		"proposed": markertypes.StatusProposed, "finalized": markertypes.StatusFinalized, "active": markertypes.StatusActive,
+		"cancelled": markertypes.StatusCancelled, "destroyed": markertypes.StatusDestroyed,
+	}
 	vownerMTURL   = map[string]string{
 		"write":   mdtypes.TypeURLMsgWriteScopeRequest,
 		"delete":  mdtypes.TypeURLMsgDeleteScopeRequest,
@@ -68,6 +74,7 @@ type vownerEnv struct {
 	bank  banktypes.MsgServer
 	mk    markertypes.MsgServer
 	mdnm  map[string]string // marker name -> its denom
+	seen  map[vownerGrant]bool // generator only: every grant that was in force at some step of this history
 }
 
 var (
@@ -104,8 +111,10 @@ func vownerSetup(t *testing.T) *vownerEnv {
 			ad := markertypes.MustGetMarkerAddress(m.denom)
 			reg(m.n, ad)
 			e.mdnm[m.n] = m.denom
-			ma := markertypes.NewMarkerAccount(authtypes.NewBaseAccountWithAddress(ad), sdk.NewInt64Coin(m.denom, 0), nil,
-				nil, markertypes.StatusActive, m.typ, false, false, false, nil)
+			// a manager and a declared supply: what MarkerAccount.Validate asks of a marker that is
+			// proposed or finalized (the mstatus op walks the markers through every lifecycle status)
+			ma := markertypes.NewMarkerAccount(authtypes.NewBaseAccountWithAddress(ad), sdk.NewInt64Coin(m.denom, 1000),
+				sdk.AccAddress([]byte("verif_vown_mkmanager")), nil, markertypes.StatusActive, m.typ, false, false, false, nil)
 			if err := a.MarkerKeeper.AddMarkerAccount(ctx, ma); err != nil {
 				t.Fatalf("add marker %s: %v", m.n, err)
 			}
@@ -129,7 +138,10 @@ func vownerSetup(t *testing.T) *vownerEnv {
 	return vownerE
 }
 
-func (e *vownerEnv) newHistory() { e.ctx, _ = e.base.CacheContext() }
+func (e *vownerEnv) newHistory() {
+	e.ctx, _ = e.base.CacheContext()
+	e.seen = map[vownerGrant]bool{}
+}
 
 func (e *vownerEnv) sym(bech string) string {
 	if bech == "" {
@@ -194,6 +206,8 @@ func vownerClass(err error) string {
 		return "err:roles"
 	case has("is not allowed to receive funds"):
 		return "err:blocked"
+	case has("from a marker that is not in Active status"):
+		return "err:status"
 	case has("ACCESS_WITHDRAW"), has("cannot withdraw from marker account"):
 		return "err:withdraw"
 	case has("ACCESS_DEPOSIT"):
@@ -372,7 +386,13 @@ func (e *vownerEnv) dump() string {
 		if m.MarkerType == markertypes.MarkerType_RestrictedCoin {
 			r = "1"
 		}
-		ms = append(ms, fmt.Sprintf("%s:%s:%s", mn, r, JoinOr(acc, "+")))
+		st := "?"
+		for k, v := range vownerStatus {
+			if v == m.Status {
+				st = k
+			}
+		}
+		ms = append(ms, fmt.Sprintf("%s:%s:%s:%s", mn, r, st, JoinOr(acc, "+")))
 	}
 	sort.Strings(ms)
 	return strings.Join(parts, " ") + " grants=" + JoinOr(gs, ",") + " markers=" + JoinOr(ms, ",")
@@ -537,6 +557,38 @@ func (e *vownerEnv) exec(op string) string {
 			return "panic:" + pan
 		}
 		return vownerClass(err)
+	case "mstatus":
+		// the marker's lifecycle status changes; its access list, type and the coins of other denoms
+		// in its account stay (what FinalizeMarker / ActivateMarker / CancelMarker / DeleteMarker do
+		// to the account record)
+		mn := kvArg2(ws, "marker")
+		st, ok := vownerStatus[kvArg2(ws, "status")]
+		if !ok {
+			return "bad-op"
+		}
+		if _, isM := e.addr[mn]; !isM || !contains(vownerMarkers, mn) {
+			return "err:notfound"
+		}
+		err, pan := Try(e.ctx, func(ctx sdk.Context) error {
+			m, err := e.app.MarkerKeeper.GetMarker(ctx, e.addr[mn])
+			if err != nil || m == nil {
+				return fmt.Errorf("marker not found")
+			}
+			ma := m.(*markertypes.MarkerAccount)
+			if err := ma.SetStatus(st); err != nil { // clears the manager of an active marker
+				return err
+			}
+			if st < markertypes.StatusActive && ma.Manager == "" {
+				// a marker that is not active yet has a manager (the creator of the proposed marker)
+				ma.Manager = sdk.AccAddress([]byte("verif_vown_mkmanager")).String()
+			}
+			e.app.MarkerKeeper.SetMarker(ctx, ma)
+			return nil
+		})
+		if pan != "" {
+			return "panic:" + pan
+		}
+		return vownerClass(err)
 	}
 	return "bad-op"
 }
@@ -675,6 +727,21 @@ func (e *vownerEnv) nearMissFor(n, mt string) []string {
 			res = append(res, a)
 		}
 	}
+	res = append(res, e.formerGranteesOf(n, mt)...)
+	return res
+}
+
+// formerGranteesOf lists accounts that HAD a grant from n for mt earlier in this history which
+// is not in force any more (used up or revoked).
+func (e *vownerEnv) formerGranteesOf(n, mt string) []string {
+	var res []string
+	for _, a := range []string{"A", "B", "C", "D", "E", "K"} {
+		if e.seen[vownerGrant{n, a, mt}] {
+			if au, _ := e.app.AuthzKeeper.GetAuthorization(e.ctx, e.addr[a], e.addr[n], vownerMTURL[mt]); au == nil {
+				res = append(res, a)
+			}
+		}
+	}
 	return res
 }
 
@@ -707,7 +774,7 @@ func (e *vownerEnv) signersFor(rng *RNG, out *Out, pre func(op string), mt strin
 				} else if rng.Chance(22) { // grant first, then let the grantee sign
 					x := Pick(rng, people)
 					if x != n {
-						pre(fmt.Sprintf("grant granter=%s grantee=%s mt=%s count=%d", n, x, mt, Pick(rng, []int{0, 1, 1, 2})))
+						pre(fmt.Sprintf("grant granter=%s grantee=%s mt=%s count=%d", n, x, mt, Pick(rng, []int{0, 1, 1, 1, 2, 3})))
 						s = append(s, x)
 					} else {
 						s = append(s, n)
@@ -827,17 +894,17 @@ func (e *vownerEnv) signersFor(rng *RNG, out *Out, pre func(op string), mt strin
 
 func vownerPickTarget(rng *RNG, holder string) string {
 	switch k := rng.Intn(100); {
-	case k < 62:
+	case k < 56:
 		return Pick(rng, vownerAccts)
-	case k < 68:
+	case k < 62:
 		return "K"
-	case k < 84:
+	case k < 78:
 		return "MR"
-	case k < 91:
+	case k < 85:
 		return "MU"
-	case k < 94:
+	case k < 88:
 		return Pick(rng, []string{"MOD", "FEE"})
-	default:
+	default: // the given account (a current holder: accounts that hold several tokens)
 		if holder != "" {
 			return holder
 		}
@@ -850,6 +917,49 @@ func resClassV(r string) string {
 }
 
 type vownerGrant struct{ granter, grantee, mt string }
+
+// vownerAgain remembers a message that moved holder's token with the consent of an authz grant only.
+type vownerAgain struct {
+	kind, signers, holder string
+	moved                 []string // the tokens that left holder (and still exist)
+}
+
+// againOp builds a second message of the same type with the same signers for another token of
+// the same holder (whatever the grant allows now: a one-use grant must be gone).
+func (e *vownerEnv) againOp(rng *RNG, v vownerView, ag *vownerAgain) string {
+	var ids []string
+	for _, id := range vownerIDs {
+		if v.holder[id] == ag.holder {
+			ids = append(ids, id)
+		}
+	}
+	if len(ids) == 0 {
+		return ""
+	}
+	to := vownerPickTarget(rng, "")
+	for to == ag.holder {
+		to = Pick(rng, vownerAccts)
+	}
+	switch ag.kind {
+	case "updvo":
+		if len(ids) > 1 && rng.Chance(50) {
+			ids = ids[:1+rng.Intn(len(ids))]
+		}
+		return fmt.Sprintf("updvo ids=%s vo=%s signers=%s", JoinOr(ids, "|"), to, ag.signers)
+	case "migrate":
+		return fmt.Sprintf("migrate from=%s to=%s signers=%s", ag.holder, to, ag.signers)
+	case "write": // only the value owner changes
+		id := Pick(rng, ids)
+		roll := ""
+		if v.rollup[id] {
+			roll = " roll=1"
+		}
+		return fmt.Sprintf("write id=%s owners=%s%s vo=%s signers=%s", id, JoinOr(v.owners[id], "|"), roll, to, ag.signers)
+	case "delete":
+		return fmt.Sprintf("delete id=%s signers=%s", Pick(rng, ids), ag.signers)
+	}
+	return ""
+}
 
 func (e *vownerEnv) grants() []vownerGrant {
 	var res []vownerGrant
@@ -890,8 +1000,29 @@ func driveVowner(t *testing.T, rng *RNG, n int, out *Out) {
 			emit("dump")
 			out.Count("prepared:" + strings.Fields(op)[0])
 		}
+		pickStatus := func(nonActive bool) string {
+			st := Pick(rng, []string{"cancelled", "cancelled", "cancelled", "proposed", "proposed", "finalized", "destroyed", "active", "active"})
+			for nonActive && st == "active" {
+				st = Pick(rng, []string{"cancelled", "proposed", "finalized", "destroyed"})
+			}
+			return st
+		}
+		// markers start active; in a good part of the histories one or both are in another lifecycle
+		// status from the start (proposed / finalized markers that never were active included)
+		if rng.Chance(35) {
+			for _, mn := range vownerMarkers {
+				if rng.Chance(60) {
+					pre(fmt.Sprintf("mstatus marker=%s status=%s", mn, pickStatus(false)))
+				}
+			}
+		}
+		// the last message whose value-owner consent came through an authz grant: tried again
+		var again *vownerAgain
 		steps := 10 + rng.Intn(16)
 		for s := 0; s < steps; s++ {
+			for _, g := range e.grants() {
+				e.seen[g] = true
+			}
 			v := e.view()
 			var held, existing []string
 			for _, id := range vownerIDs {
@@ -903,6 +1034,10 @@ func driveVowner(t *testing.T, rng *RNG, n int, out *Out) {
 				}
 			}
 			before := v
+			anyHolder := "" // somebody who holds a token already
+			if len(held) > 0 {
+				anyHolder = v.holder[Pick(rng, held)]
+			}
 			var r, kind, signers string
 			k := rng.Intn(100)
 			if len(held) == 0 && k >= 30 && k < 75 && rng.Chance(70) {
@@ -917,7 +1052,39 @@ func driveVowner(t *testing.T, rng *RNG, n int, out *Out) {
 			if k >= 71 && k < 75 && !markerHeld && rng.Chance(80) {
 				k = 65 // no marker holds a token: a bank send instead
 			}
+			if markerHeld && rng.Chance(12) { // a marker that holds a scope token changes its status
+				for _, id := range held {
+					if hh := v.holder[id]; contains(vownerMarkers, hh) {
+						cur := e.marker(hh)
+						pre(fmt.Sprintf("mstatus marker=%s status=%s", hh, pickStatus(cur != nil && cur.Status == markertypes.StatusActive)))
+						out.Count("prepared:mstatus-of-holder")
+						break
+					}
+				}
+			}
+			if again != nil {
+				ag := again
+				again = nil
+				if rng.Chance(65) {
+					op := e.againOp(rng, v, ag)
+					if op == "" && len(ag.moved) > 0 && contains(people, v.holder[ag.moved[0]]) {
+						// the former holder has no token left: the new holder hands one back first
+						emit(fmt.Sprintf("send from=%s to=%s ids=%s", v.holder[ag.moved[0]], ag.holder, ag.moved[0]))
+						emit("dump")
+						v = e.view()
+						before = v
+						op = e.againOp(rng, v, ag)
+					}
+					if op != "" {
+						kind, signers = ag.kind, ag.signers
+						r = emit(op)
+						out.Count("again:" + kind + ":" + resClassV(r))
+						k = -1
+					}
+				}
+			}
 			switch {
+			case k == -1: // the repeated message above
 			case k < 30 || len(existing) == 0: // write scope
 				kind = "write"
 				id := Pick(rng, vownerIDs)
@@ -976,6 +1143,9 @@ func driveVowner(t *testing.T, rng *RNG, n int, out *Out) {
 				vo := "-"
 				if (!v.exists[id] && rng.Chance(80)) || (v.exists[id] && rng.Chance(55)) || forceBoth {
 					vo = vownerPickTarget(rng, v.holder[id])
+					if !v.exists[id] && anyHolder != "" && rng.Chance(30) {
+						vo = anyHolder // one account holding the tokens of several scopes
+					}
 					// the value owner is often one of the scope's own parties, optional ones included
 					if pool := owners; len(pool) > 0 && rng.Chance(35) && !forceBoth {
 						var opts []string
@@ -1074,10 +1244,13 @@ func driveVowner(t *testing.T, rng *RNG, n int, out *Out) {
 				if !rng.Chance(5) {
 					ids = vownerUniq(ids)
 				}
+				if len(ids) > 1 && rng.Chance(30) { // one token only: the holder keeps others for a later message
+					ids = ids[:1]
+				}
 				if rng.Chance(2) {
 					ids = nil
 				}
-				vo := vownerPickTarget(rng, "")
+				vo := vownerPickTarget(rng, anyHolder)
 				var need []string
 				for _, id := range ids {
 					if hh := v.holder[id]; hh != "" && hh != vo {
@@ -1173,7 +1346,7 @@ func driveVowner(t *testing.T, rng *RNG, n int, out *Out) {
 					ids = nil
 				}
 				signers = from
-				r = emit(fmt.Sprintf("send from=%s to=%s ids=%s", from, vownerPickTarget(rng, ""), JoinOr(ids, "|")))
+				r = emit(fmt.Sprintf("send from=%s to=%s ids=%s", from, vownerPickTarget(rng, anyHolder), JoinOr(ids, "|")))
 			case k < 88: // authz grant / revoke
 				kind = "grant"
 				granter := Pick(rng, people)
@@ -1201,11 +1374,14 @@ func driveVowner(t *testing.T, rng *RNG, n int, out *Out) {
 					}
 					r = emit(fmt.Sprintf("revoke granter=%s grantee=%s mt=%s", granter, grantee, mt))
 				} else if granter != grantee {
-					r = emit(fmt.Sprintf("grant granter=%s grantee=%s mt=%s count=%d", granter, grantee, mt, Pick(rng, []int{0, 0, 1, 1, 2})))
+					r = emit(fmt.Sprintf("grant granter=%s grantee=%s mt=%s count=%d", granter, grantee, mt, Pick(rng, []int{0, 0, 1, 1, 1, 2, 3})))
 				} else {
 					continue
 				}
-			case k < 99: // marker permissions
+			case k >= 95 && k < 99: // marker lifecycle status
+				kind = "mstatus"
+				r = emit(fmt.Sprintf("mstatus marker=%s status=%s", Pick(rng, []string{"MR", "MR", "MU", "MU", "MX"}), pickStatus(false)))
+			case k < 95: // marker permissions
 				kind = "access"
 				var perms []string
 				if rng.Chance(60) {
@@ -1236,6 +1412,14 @@ func driveVowner(t *testing.T, rng *RNG, n int, out *Out) {
 						out.Count("move:" + kind + ":burn")
 					default:
 						out.Count("move:" + kind + ":transfer")
+					}
+					if b != "" && kind != "send" && kind != "mwithdraw" && !contains(sg, b) && !contains(vownerMarkers, b) {
+						if again == nil || again.holder != b {
+							again = &vownerAgain{kind: kind, signers: signers, holder: b}
+						}
+						if a != "" {
+							again.moved = append(again.moved, id)
+						}
 					}
 					if b != "" {
 						switch {
